@@ -130,3 +130,108 @@ Proof.
 Qed.
 Theorem aeq_det : forall m a b r r', aeq m a b r -> aeq m a b r' -> r = r'.
 Proof. intros m a b r r' H1 H2. destruct (aeq_det_all m) as (D & _ & _). eapply D; eauto. Qed.
+
+(* ====================================================================== on a well-formed acyclic heap veq always answers *)
+(* `fin h d v`: v unfolds completely (no dangling reference) within nesting depth d *)
+Inductive fin (h : heap) : nat -> value -> Prop :=
+| fin_scalar : forall d v, vloc v = None -> fin h d v
+| fin_arr : forall d l xs, hget h l = Some (CArr xs) -> (forall x, In x xs -> fin h d x) -> fin h (S d) (VArr l)
+| fin_obj : forall d l kv, hget h l = Some (CObj kv) -> (forall p, In p kv -> fin h d (snd p)) -> fin h (S d) (VObj l).
+
+Lemma all2_with_total : forall (cmp : value -> value -> option bool) xs ys,
+  (forall x y, In x xs -> In y ys -> cmp x y <> None) -> all2_with cmp xs ys <> None.
+Proof.
+  induction xs as [|x xs IH]; intros [|y ys] H; simpl; try discriminate.
+  destruct (cmp x y) as [[]|] eqn:E; try discriminate.
+  - apply IH. intros; apply H; right; assumption.
+  - exfalso. apply (H x y); [left; reflexivity | left; reflexivity | exact E].
+Qed.
+Lemma all2kv_with_total : forall (cmp : value -> value -> option bool) xs ys,
+  (forall p q, In p xs -> In q ys -> cmp (snd p) (snd q) <> None) -> all2kv_with cmp xs ys <> None.
+Proof.
+  induction xs as [|[k1 x] xs IH]; intros [|[k2 y] ys] H; simpl; try discriminate.
+  destruct (str_eqb k1 k2); [|discriminate].
+  destruct (cmp x y) as [[]|] eqn:E; try discriminate.
+  - apply IH. intros; apply H; right; assumption.
+  - exfalso. apply (H (k1, x) (k2, y)); [left; reflexivity | left; reflexivity | exact E].
+Qed.
+Lemma insert_key_In : forall {A} (kv p : str * A) l, In p (insert_key kv l) -> p = kv \/ In p l.
+Proof.
+  induction l as [|x l IH]; simpl; intros H.
+  - destruct H as [<-|[]]; auto.
+  - destruct (str_compare (fst kv) (fst x)); simpl in H; try (destruct H as [<-|H]; auto; fail).
+    destruct H as [<-|H]; auto. apply IH in H. tauto.
+Qed.
+Lemma sort_keys_In : forall {A} (l : list (str * A)) p, In p (sort_keys l) -> In p l.
+Proof.
+  unfold sort_keys. induction l as [|x l IH]; simpl; intros p H; [exact H|].
+  apply insert_key_In in H. destruct H as [->|H]; auto.
+Qed.
+
+Theorem veq_total : forall f h d a b, d < f -> fin h d a -> fin h d b -> veq f h a b <> None.
+Proof.
+  induction f as [|f IH]; intros h d a b L Fa Fb; [lia|].
+  rewrite veq_S. destruct a, b; simpl; try discriminate.
+  - inv Fa; [discriminate|]. inv Fb; [discriminate|].
+    match goal with A : hget h l = _, B : hget h l0 = _ |- _ => rewrite A, B end.
+    apply all2_with_total. intros x y Ix Iy. apply (IH h d0); [lia | auto | auto].
+  - inv Fa; [discriminate|]. inv Fb; [discriminate|].
+    match goal with A : hget h l = _, B : hget h l0 = _ |- _ => rewrite A, B end.
+    apply all2kv_with_total. intros p q Ip Iq. apply sort_keys_In in Ip. apply sort_keys_In in Iq.
+    apply (IH h d0); [lia | auto | auto].
+Qed.
+
+(* rank-acyclic + well-formed => every well-formed value unfolds within depth (number of cells) *)
+Lemma fin_of_rank : forall h rank,
+  (forall l c x l', hget h l = Some c -> In x (cell_values c) -> vloc x = Some l' -> rank l' < rank l) ->
+  heap_ok h = true ->
+  forall n p v, NoDup p -> (forall q, In q p -> q < length h) -> length h - length p <= n ->
+  (forall l, vloc v = Some l -> forall q, In q p -> rank l < rank q) -> val_ok h v = true -> fin h n v.
+Proof.
+  intros h rank R W. unfold heap_ok in W. rewrite forallb_forall in W.
+  assert (Step : forall n p l c, NoDup p -> (forall q, In q p -> q < length h) -> length h - length p <= n ->
+            (forall q, In q p -> rank l < rank q) -> hget h l = Some c ->
+            exists n', n = S n' /\ NoDup (l :: p) /\ (forall q, In q (l :: p) -> q < length h) /\ length h - length (l :: p) <= n'
+                       /\ cell_ok h c = true).
+  { intros n p l c ND B Ln Rk G.
+    assert (Ll : l < length h) by (eapply hget_Some_lt; eauto).
+    assert (ND' : NoDup (l :: p)). { constructor; [|exact ND]. intro I. specialize (Rk l I). lia. }
+    assert (B' : forall q, In q (l :: p) -> q < length h) by (intros q [<-|I]; auto).
+    assert (Len : length (l :: p) <= length h).
+    { rewrite <- (seq_length (length h) 0). apply NoDup_incl_length; [exact ND'|]. intros q I. apply in_seq. specialize (B' q I). lia. }
+    simpl in Len. destruct n as [|n']; [exfalso; unfold loc in *; lia|]. exists n'. repeat split; auto; [simpl; unfold loc in *; lia|].
+    apply W. unfold hget in G. eapply nth_error_In; eauto. }
+  induction n as [|n IH]; intros p v ND B Ln Rk V.
+  - destruct v; try (apply fin_scalar; reflexivity); simpl in V;
+      destruct (hget h l) as [c|] eqn:G; try discriminate;
+      destruct (Step 0 p l c ND B Ln (Rk l eq_refl) G) as (n' & E & _); discriminate.
+  - destruct v; try (apply fin_scalar; reflexivity); simpl in V.
+    + destruct (hget h l) as [[xs|kv]|] eqn:G; try discriminate.
+      destruct (Step (S n) p l _ ND B Ln (Rk l eq_refl) G) as (n' & E & ND' & B' & Ln' & C). inv E.
+      eapply fin_arr; [exact G|]. intros x Ix. apply (IH (l :: p)); auto.
+      * intros l' Vl q [<-|Iq]; [eapply R; eauto | ].
+        assert (rank l' < rank l) by (eapply R; eauto). specialize (Rk l eq_refl q Iq). lia.
+      * simpl in C. rewrite forallb_forall in C. auto.
+    + destruct (hget h l) as [[xs|kv]|] eqn:G; try discriminate.
+      destruct (Step (S n) p l _ ND B Ln (Rk l eq_refl) G) as (n' & E & ND' & B' & Ln' & C). inv E.
+      eapply fin_obj; [exact G|]. intros x Ix. apply (IH (l :: p)); auto.
+      * intros l' Vl q [<-|Iq]; [eapply R; eauto; simpl; apply in_map; exact Ix | ].
+        assert (rank l' < rank l) by (eapply R; eauto; simpl; apply in_map; exact Ix). specialize (Rk l eq_refl q Iq). lia.
+      * simpl in C. rewrite forallb_forall in C. auto.
+Qed.
+
+Theorem acyclic_fin : forall h v, heap_ok h = true -> acyclic h -> val_ok h v = true -> fin h (length h) v.
+Proof.
+  intros h v W [rank R] V. apply (fin_of_rank h rank R W (length h) [] v); auto.
+  - constructor.
+  - intros q [].
+  - simpl. lia.
+  - intros l _ q [].
+Qed.
+
+(* the model's fuel is enough *)
+Theorem veq_acyclic_answers : forall h a b, heap_ok h = true -> acyclic h -> val_ok h a = true -> val_ok h b = true ->
+  veq (compare_fuel h) h a b <> None.
+Proof.
+  intros h a b W A Va Vb. apply (veq_total _ h (length h)); [unfold compare_fuel; nia | apply acyclic_fin; auto | apply acyclic_fin; auto].
+Qed.
